@@ -133,7 +133,7 @@ Definition nt (o : obs) : Z := Z.of_nat (length (o_trigs o)).
 
 Definition counter_ok (o : obs) (k c : nat) (n : Z) : Prop :=
   o_calls o = map (fun a => (c, k, a)) (o_trigs o)
-  /\ o_cell o = (n - nt o)%Z
+  /\ (o_att o = true -> o_cell o = (n - nt o)%Z)
   /\ (nt o <= Z.max n 1)%Z
   /\ (o_xr o = false -> (o_att o = true <-> (nt o < Z.max n 1)%Z))
   /\ o_ov o = false.
@@ -200,9 +200,12 @@ Proof.
 Qed.
 
 (* what the proofs need from the header-dependent ingredients *)
+(* the test is due exactly with the max(n,1)-th trigger; while it is not due the counter went down by one *)
 Definition step_ok (step : (Z -> Z) -> Z -> Z * bool) : Prop :=
   forall n t, in_range n -> (0 <= t < Z.max n 1)%Z ->
-    exists due, step int_dec (n - t)%Z = ((n - (t + 1))%Z, due) /\ (due = false <-> (t + 1 < Z.max n 1)%Z).
+    exists n' due, step int_dec (n - t)%Z = (n', due)
+                   /\ (due = false <-> (t + 1 < Z.max n 1)%Z)
+                   /\ (due = false -> n' = (n - (t + 1))%Z).
 
 Definition leafs_ok (lf : leafs) : Prop :=
   step_ok (lf_step lf)
@@ -213,24 +216,67 @@ Definition leafs_ok (lf : leafs) : Prop :=
 (* THE place where the generated definitions are opened: `<` for `<=`, a post-decrement, the
    listener called before the removal, the condition not given its arguments or state kept in
    the helper object make this lemma fail *)
+Ltac split_comparisons :=
+  repeat match goal with
+         | |- context [Z.leb ?a ?b] => destruct (Z.leb_spec a b)
+         | |- context [Z.ltb ?a ?b] => destruct (Z.ltb_spec a b)
+         | |- context [Z.eqb ?a ?b] => destruct (Z.eqb_spec a b)
+         end.
+
+Lemma int_dec_in_range n t : in_range n -> (0 <= t < Z.max n 1)%Z -> int_dec (n - t) = (n - (t + 1))%Z.
+Proof.
+  intros [R1 R2] T. pose proof int_min_nonpos as M. unfold int_dec, wrap.
+  destruct (Z.ltb_spec (n - t - 1) int_min); [lia|].
+  destruct (Z.ltb_spec int_max (n - t - 1)); [lia|]. lia.
+Qed.
+
+(* the generated test of CounterRemover::Wrapper::operator() (either specialisation) *)
+Lemma generated_counter_test_ok islist : step_ok (GenAutoRemove.counter_step islist).
+Proof.
+  intros n t R T. assert (W := int_dec_in_range n t R T). destruct R as [R1 R2].
+  unfold GenAutoRemove.counter_step. destruct islist; cbv zeta; rewrite ?W; split_comparisons; simpl;
+    (eexists; eexists; split; [reflexivity|]; split; [split; intros; try discriminate; try reflexivity; lia|intros; try discriminate; try reflexivity; lia]).
+Qed.
+
+Lemma generated_counter_removes_before_call islist : GenAutoRemove.counter_removes_before_call islist = true.
+Proof. destruct islist; reflexivity. Qed.
+
+Lemma generated_cond_removes_before_call islist : GenAutoRemove.cond_removes_before_call islist = true.
+Proof. destruct islist; reflexivity. Qed.
+
+Lemma generated_cond_receives_arguments_iff_accepted islist w : GenAutoRemove.cond_passes_args islist w = w.
+Proof. destruct islist, w; reflexivity. Qed.
+
+Lemma generated_counter_state_in_shared_data islist : GenAutoRemove.counter_state_shared islist = true.
+Proof. destruct islist; reflexivity. Qed.
+
+Lemma generated_cond_state_in_shared_data islist : GenAutoRemove.cond_state_shared islist = true.
+Proof. destruct islist; reflexivity. Qed.
+
+(* THE place where the generated definitions are opened: `<` for `<=`, a post-decrement, the
+   listener called before the removal, the condition not given its arguments or state kept in
+   the helper object make one of the six lemmas above fail *)
 Lemma gen_leafs_ok islist : leafs_ok (gen_leafs islist).
 Proof.
-  unfold leafs_ok, gen_leafs; simpl. split; [|destruct islist; repeat split; try reflexivity; intros []; reflexivity].
-  intros n t [R1 R2] T. pose proof int_min_nonpos as M.
-  assert (W : int_dec (n - t) = (n - (t + 1))%Z).
-  { unfold int_dec, wrap.
-    destruct (Z.ltb_spec (n - t - 1) int_min); [lia|].
-    destruct (Z.ltb_spec int_max (n - t - 1)); [lia|]. lia. }
-  unfold GenAutoRemove.counter_step. destruct islist; cbv zeta; rewrite W;
-    (eexists; split; [reflexivity|]);
-    (destruct (Z.leb_spec (n - (t + 1)) 0); split; intros; try discriminate; try reflexivity; lia).
+  unfold leafs_ok, gen_leafs; simpl.
+  split; [apply generated_counter_test_ok|]. split; [apply generated_counter_removes_before_call|].
+  split; [apply generated_cond_removes_before_call|]. split; [apply generated_cond_receives_arguments_iff_accepted|].
+  split; [apply generated_counter_state_in_shared_data|apply generated_cond_state_in_shared_data].
 Qed.
 
 Lemma spec_leafs_ok : leafs_ok spec_leafs.
 Proof.
   unfold leafs_ok, spec_leafs; simpl. split; [|repeat split; reflexivity].
   intros n t [R1 R2] T. replace (n - t - 1)%Z with (n - (t + 1))%Z by lia.
-  eexists; split; [reflexivity|].
+  eexists; eexists; split; [reflexivity|]. split; [|reflexivity].
+  destruct (Z.leb_spec (n - (t + 1)) 0); split; intros; try discriminate; try reflexivity; lia.
+Qed.
+
+Lemma legacy_leafs_ok : leafs_ok legacy_leafs.
+Proof.
+  unfold leafs_ok, legacy_leafs; simpl. split; [|repeat split; reflexivity].
+  intros n t R T. rewrite (int_dec_in_range n t R T). destruct R as [R1 R2].
+  eexists; eexists; split; [reflexivity|]. split; [|reflexivity].
   destruct (Z.leb_spec (n - (t + 1)) 0); split; intros; try discriminate; try reflexivity; lia.
 Qed.
 
@@ -268,7 +314,7 @@ Lemma counter_trans step (bounded : bool) ls en ce nh xr ov tr h k c n a n' due 
   InvC ls en ce nh xr ov tr -> In h (lstk ls k) -> alookup h en = Some (k, SCounter c n) ->
   step int_dec (cellk ce h) = (n', due) ->
   InvC (if due then aset k (del_l h (lstk ls k)) ls else ls) en (aset h n' ce) nh xr
-       (if bounded && dec_overflows (cellk ce h) then h :: ov else ov) (ACall h c k a :: ATrig h a :: tr).
+       (if counter_overflowed bounded (cellk ce h) n' then h :: ov else ov) (ACall h c k a :: ATrig h a :: tr).
 Proof.
   intros SOK [L P] Hin E St. split; [destruct due; [apply lists_ok_del|]; exact L|].
   intros h'. destruct (Nat.eqb_spec h' h) as [->|N].
@@ -282,21 +328,24 @@ Proof.
     destruct (C _ _ _ eq_refl R) as (C1 & C2 & C3 & C4 & C5).
     unfold counter_ok, nt in *; simpl in *.
     assert (T : (0 <= Z.of_nat (length (trigs_of h tr)) < Z.max n 1)%Z) by (split; [lia|apply (proj1 (C4 eq_refl)); exact Att]).
-    rewrite C2 in St. destruct (SOK n _ R T) as (due' & S1 & S2). assert (S3 := no_overflow_in_range n _ R T).
-    rewrite S1 in St. inversion St; subst n' due'. clear St. rewrite C2, S3, andb_false_r.
+    rewrite (C2 Att) in St. destruct (SOK n _ R T) as (n'' & due' & S1 & S2 & S4). assert (S3 := no_overflow_in_range n _ R T).
+    rewrite S1 in St. inversion St; subst n'' due'. clear St. unfold counter_overflowed. rewrite (C2 Att), S3, andb_false_r. simpl.
     rewrite cellk_aset, Nat.eqb_refl.
-    split; [rewrite C1; reflexivity|]. split; [lia|]. split; [lia|]. split; [|exact C5].
-    intros _. destruct due.
-    + rewrite (attachedk_del_self _ _ _ _ _ _ L E). split; [discriminate|]. intros H.
-      assert (true = false) by (apply S2; lia). discriminate.
-    + rewrite Att. split; [intros _|reflexivity]. assert (H := proj1 S2 eq_refl). lia.
+    split; [rewrite C1; reflexivity|]. split; [|split; [lia|split; [|exact C5]]].
+    + destruct due.
+      * rewrite (attachedk_del_self _ _ _ _ _ _ L E). discriminate.
+      * intros _. rewrite (S4 eq_refl). lia.
+    + intros _. destruct due.
+      * rewrite (attachedk_del_self _ _ _ _ _ _ L E). split; [discriminate|]. intros H.
+        assert (true = false) by (apply S2; lia). discriminate.
+      * rewrite Att. split; [intros _|reflexivity]. assert (H := proj1 S2 eq_refl). lia.
   - replace (obs_of (if due then aset k (del_l h (lstk ls k)) ls else ls) en (aset h n' ce) nh xr
-                    (if bounded && dec_overflows (cellk ce h) then h :: ov else ov) (ACall h c k a :: ATrig h a :: tr) h')
+                    (if counter_overflowed bounded (cellk ce h) n' then h :: ov else ov) (ACall h c k a :: ATrig h a :: tr) h')
       with (obs_of ls en ce nh xr ov tr h'); [exact (P h')|].
     unfold obs_of; simpl. rewrite (eqb_false_ne _ _ (not_eq_sym N)), cellk_aset, (eqb_false_ne _ _ N).
     f_equal.
     + destruct due; [symmetry; apply attachedk_del_other; exact N|reflexivity].
-    + destruct (bounded && dec_overflows (cellk ce h)); [symmetry; apply has_l_cons_ne; exact N|reflexivity].
+    + destruct (counter_overflowed bounded (cellk ce h) n'); [symmetry; apply has_l_cons_ne; exact N|reflexivity].
 Qed.
 
 Lemma all_false_cons v l : all_false (v :: l) <-> v = false /\ all_false l.
@@ -440,7 +489,7 @@ Section Preservation.
         destruct (lf_step lf int_dec (cellk (cells st) h)) as [n' due] eqn:St.
         unfold finish_wrapper, run_inner in H. cbv zeta in H. apply HR in H; [exact H|].
         pose proof (counter_trans (lf_step lf) (lf_bounded lf) _ _ _ _ _ _ _ _ _ _ _ a _ _ (proj1 LOK) I Hh E St) as T.
-        unfold Inv. destruct due, (lf_bounded lf && dec_overflows (cellk (cells st) h)); simpl; exact T.
+        unfold Inv. destruct due, (counter_overflowed (lf_bounded lf) (cellk (cells st) h) n'); simpl; exact T.
       - (* ConditionalRemover *)
         assert (Sh : lf_cond_shared lf = true) by (destruct LOK as (_ & _ & _ & _ & _ & X); exact X).
         assert (Rb : lf_cond_rbc lf = true) by (destruct LOK as (_ & _ & X & _); exact X).
@@ -582,12 +631,12 @@ Section Progress.
         unfold finish_wrapper, run_inner in H. cbv zeta in H.
         pose proof (counter_trans (lf_step lf) (lf_bounded lf) _ _ _ _ _ _ _ _ _ _ _ a _ _ (proj1 LOK) I Hh E St) as T.
         eexists _, _. split; [exact H|]. split; [|split].
-        + unfold Inv. destruct due, (lf_bounded lf && dec_overflows (cellk (cells st) h)); simpl; exact T.
+        + unfold Inv. destruct due, (counter_overflowed (lf_bounded lf) (cellk (cells st) h) n'); simpl; exact T.
         + split; [|split].
-          * destruct due, (lf_bounded lf && dec_overflows (cellk (cells st) h)); simpl; eexists [_; _]; reflexivity.
-          * intros h0 X. destruct due, (lf_bounded lf && dec_overflows (cellk (cells st) h)); simpl in X; exact X.
-          * intros h0 x X. destruct due, (lf_bounded lf && dec_overflows (cellk (cells st) h)); simpl; exact X.
-        + intros _ _ _ _. unfold ntrig. destruct due, (lf_bounded lf && dec_overflows (cellk (cells st) h)); simpl; rewrite Nat.eqb_refl; reflexivity.
+          * destruct due, (counter_overflowed (lf_bounded lf) (cellk (cells st) h) n'); simpl; eexists [_; _]; reflexivity.
+          * intros h0 X. destruct due, (counter_overflowed (lf_bounded lf) (cellk (cells st) h) n'); simpl in X; exact X.
+          * intros h0 x X. destruct due, (counter_overflowed (lf_bounded lf) (cellk (cells st) h) n'); simpl; exact X.
+        + intros _ _ _ _. unfold ntrig. destruct due, (counter_overflowed (lf_bounded lf) (cellk (cells st) h) n'); simpl; rewrite Nat.eqb_refl; reflexivity.
       - assert (Sh : lf_cond_shared lf = true) by (destruct LOK as (_ & _ & _ & _ & _ & X); exact X).
         assert (Rb : lf_cond_rbc lf = true) by (destruct LOK as (_ & _ & X & _); exact X).
         rewrite Sh, Rb in H. unfold touch_helper in H. cbv zeta in H.
@@ -774,7 +823,7 @@ Section Statements.
     /\ (t <= Z.max n 1)%Z
     /\ (has_l h (xrem st) = false -> (attached st h = true <-> (t < Z.max n 1)%Z))
     /\ (has_l h (xrem st) = true -> attached st h = false)
-    /\ cellk (cells st) h = (n - t)%Z
+    /\ (attached st h = true -> cellk (cells st) h = (n - t)%Z)
     /\ has_l h (ovfs st) = false.
   Proof.
     intros H E R. destruct (proj2 (reachable_inv _ _ _ H) h) as (_ & X & C & _).
@@ -901,19 +950,19 @@ End Helper.
 Definition int_min_prog : list acmd :=
   [AAdd PAppend 0 (SCounter 1 int_min) 0; ADispatch 0 5%Z; ADispatch 0 6%Z; ADispatch 0 7%Z].
 
-(* promised: max(INT_MIN, 1) = 1 call.  The model (wrap-around semantics for the undefined
-   decrement) records the overflow, leaves the wrapper attached and calls the listener on
-   every trigger. *)
+(* promised: max(INT_MIN, 1) = 1 call.  The wrapper `if(--data->triggerCount <= 0)` on a machine int
+   (legacy_leafs; wrap-around semantics for the undefined decrement) records the overflow, stays
+   attached and calls the listener on every trigger. *)
 Lemma counter_int_min_refuted :
-  exists islist fuel st,
-    a_run (gen_leafs islist) (fun _ _ => []) (fun _ _ => false) fuel a_init int_min_prog = Some st
+  exists fuel st,
+    a_run legacy_leafs (fun _ _ => []) (fun _ _ => false) fuel a_init int_min_prog = Some st
     /\ alookup 0 (ents st) = Some (0, SCounter 1 int_min)
     /\ Z.max int_min 1 = 1%Z
     /\ has_l 0 (ovfs st) = true
     /\ attached st 0 = true
     /\ length (calls_of 0 (atrace st)) = 3
     /\ cellk (cells st) 0 = (int_max - 2)%Z.
-Proof. exists true, 2. eexists. split; [vm_compute; reflexivity|]. vm_compute. repeat split; reflexivity. Qed.
+Proof. exists 2. eexists. split; [vm_compute; reflexivity|]. vm_compute. repeat split; reflexivity. Qed.
 
 (* the specification on the same input: detached with the first trigger, one call *)
 Lemma spec_int_min_detaches :
